@@ -87,6 +87,15 @@ def ws_remove(E, st, recv, vals):
     return out
 
 
+@R.method("_WS", "mut:discard")
+def ws_discard(E, st, recv, vals):
+    w = vals[0].e
+    s2 = st.fork()
+    st.assume(z3.Select(recv.dom, w), recv.card >= 1)
+    s2.assume(z3.Not(z3.Select(recv.dom, w)))
+    return [(st, _WS(z3.Store(recv.dom, w, z3.BoolVal(False)), recv.card - 1), NONE, None), (s2, recv, NONE, None)]
+
+
 def new_pool(E, st, name="pool"):
     pool = st.new_obj("Pyro5.svr_threads.Pool")
     idle = _WS(z3.Const(name + "_idle", WSet), z3.Const(name + "_n_idle", IntS))
@@ -229,6 +238,31 @@ class PoolNotifyDone(_PoolOp):
                  z3.Select(idle.dom, w) != z3.BoolVal(retired)),
                 ("no job is handed out here", z3.BoolVal(all(isinstance(e[2], VNone) for e in h) and len(h) <= 1)),
                 ("a closed pool keeps no worker", z3.Implies(old.heap[self.pool.ref]["closed"].e, z3.BoolVal(retired))),
+                ("lock released", z3.BoolVal(all(v == 0 for v in st.locks.values())))]
+
+
+@R.contract
+class PoolWorkerDied(_PoolOp):
+    """Pool.worker_died(worker): a worker whose job ended with a BaseException leaves `busy` (so its slot is free again) and nothing else changes"""
+    name = "Pyro5.svr_threads.Pool.worker_died"
+    raises = {}
+
+    def setup(self, E, st):
+        p = self.base(E, st)
+        self.w = VOpaque(z3.Const("worker", U))
+        st.assume(self.w.e != U_NONE)
+        return {"self": p, "worker": self.w}
+
+    def ensures(self, E, old, st, a, result):
+        if E.cur_contract is not self:
+            return []
+        idle, busy = st.heap[self.pool.ref]["idle"], st.heap[self.pool.ref]["busy"]
+        idle0, busy0 = old.heap[self.pool.ref]["idle"], old.heap[self.pool.ref]["busy"]
+        x = z3.Const("x!died", U)
+        return [("P: sets disjoint, workers <= THREADPOOL_SIZE", self.P(st)), self.sections_ok(st),
+                ("the dead worker is no longer counted as busy", z3.Not(z3.Select(busy.dom, self.w.e))),
+                ("every other worker keeps its place", z3.ForAll([x], z3.Implies(x != self.w.e, z3.Select(busy.dom, x) == z3.Select(busy0.dom, x)))),
+                ("the idle set is untouched, no job or exit order is handed out", z3.BoolVal(idle is idle0 and not self.handoffs(st))),
                 ("lock released", z3.BoolVal(all(v == 0 for v in st.locks.values())))]
 
 
@@ -421,3 +455,15 @@ def _set(E, st, args, kw):
     if _prev_set is not None:
         return _prev_set(E, st, args, kw)
     raise Unsupported("set(...)")
+
+
+@R.lemma("C18:pool-state-frame", props=("C18",))
+def pool_state_frame(E):
+    """the pool's bookkeeping (idle, busy, closed) and a worker's job slot are written only by the functions under contract (and the constructors)"""
+    from contracts.frames import frame_obligations
+    P = "Pyro5/svr_threads.py:Pool."
+    frame_obligations(E, "thread pool", {
+        "idle": {P + "__init__", P + "process", P + "notify_done", P + "close"},
+        "busy": {P + "__init__", P + "process", P + "notify_done", P + "close", P + "worker_died"},
+        "closed": {P + "__init__", P + "close"},
+        "job": {"Pyro5/svr_threads.py:Worker.__init__", "Pyro5/svr_threads.py:Worker.process", "Pyro5/svr_threads.py:Worker.run"}})
